@@ -579,6 +579,68 @@ fn write_print_shape(files: &[(&str, Vec<&str>)], style: u8, dir: &Path) -> (Vec
     (flat, root, pasted)
 }
 
+/// Blocks that are opened in one file and closed in another: the pasted script is one well-nested
+/// program, so the include structure runs like it - whether the directive is the last line of its
+/// file or not, whichever side of the directive the block opens on.
+fn block_shapes() -> Vec<PrintShape> {
+    vec![
+        ("if-closed-in-included-directive-last", vec![("root", vec!["a = set 1", "if true", "b = set 2", ">close"]), ("close", vec!["c = set 3", "end", "d = set after"])]),
+        ("if-closed-in-included-then-more", vec![("root", vec!["if true", "b = set 2", ">close", "e = set more"]), ("close", vec!["c = set 3", "end"])]),
+        ("if-closed-in-included-comment-behind", vec![("root", vec!["if true", "b = set 2", ">close", "# the end"]), ("close", vec!["end", "d = set after"])]),
+        ("if-false-closed-in-included", vec![("root", vec!["if false", "b = set never", ">close"]), ("close", vec!["c = set never", "else", "c = set other", "end", "d = set after"])]),
+        ("if-opened-in-included", vec![("root", vec![">open", "b = set 2", "end", "d = set after"]), ("open", vec!["a = set 1", "if true"])]),
+        ("if-opened-in-one-closed-in-another", vec![("root", vec![">open", "b = set 2", ">close"]), ("open", vec!["if true"]), ("close", vec!["end", "d = set after"])]),
+        ("while-closed-in-included", vec![("root", vec!["i = set 0", "while less_than ${i} 3", "i = calc ${i} + 1", ">close"]), ("close", vec!["j = set ${i}", "end", "d = set after"])]),
+        ("for-closed-in-included", vec![("root", vec!["arr = array a b c", "t = set \"\"", "for x in ${arr}", ">close"]), ("close", vec!["t = set \"${t}${x}\"", "end", "release ${arr}", "d = set after"])]),
+        ("fn-closed-in-included", vec![("root", vec!["fn f", "r = set ${1}!", ">close"]), ("close", vec!["return ${r}", "end", "o = f v", "d = set after"])]),
+        ("nested-closed-two-levels-down", vec![("root", vec!["i = set 0", "while less_than ${i} 2", "i = calc ${i} + 1", "if true", ">mid"]), ("mid", vec!["k = set ${i}", ">close"]), ("close", vec!["end", "end", "d = set after"])]),
+        ("else-in-included", vec![("root", vec!["if false", "b = set never", ">mid", "c = set other", "end", "d = set after"]), ("mid", vec!["else"])]),
+    ]
+}
+
+fn blocks_across_files(w: &mut Worker) {
+    let dir: PathBuf = w.scratch.join("c14-blocks");
+    for (shape, files) in &block_shapes() {
+        for style in 0..2u8 {
+            if !w.take() {
+                continue;
+            }
+            let cj = json!({"kind": "blocks-across-files", "shape": shape, "path_style": if style == 0 { "relative" } else { "absolute" }});
+            w.begin(|| cj.clone());
+            w.add_transitions(2);
+            match blocks_case(files, style, &dir) {
+                Ok(()) => w.pass(true, hash64(&("blocks-across-files", *shape))),
+                Err((sig, what)) => w.fail(&sig, &format!("{}: {}", shape, what), cj),
+            }
+        }
+    }
+    let _ = std::fs::remove_dir_all(&dir);
+}
+
+fn blocks_case(files: &[(&str, Vec<&str>)], style: u8, dir: &Path) -> Result<(), (String, String)> {
+    let (flat, root, _pasted) = write_print_shape(files, style, dir);
+    let run = |file: Option<&str>, text: &str| -> Result<std::collections::BTreeMap<String, String>, String> {
+        let (env, _o, _e, _h) = quiet_env();
+        let r = guarded(|| match file {
+            Some(f) => duckscript::runner::run_script_file(f, sdk_context(), Some(env)),
+            None => duckscript::runner::run_script(text, sdk_context(), Some(env)),
+        });
+        match r {
+            Err(p) => Err(format!("panic: {}", p)),
+            Ok(Err(e)) => Err(format!("failed: {}", e)),
+            Ok(Ok(c)) => Ok(c.variables.into_iter().map(|(k, v)| (k, if is_handle_text(&v) { "<handle>".to_string() } else { v })).collect()),
+        }
+    };
+    let pasted = run(None, &flat.join("\n"));
+    let structure = run(Some(&root), "");
+    match (&pasted, &structure) {
+        (Err(e), _) => Err(("harness:blocks-across-files".into(), format!("the pasted script {:?} {}", flat, e))),
+        (Ok(p), Ok(s)) if p == s => Ok(()),
+        (Ok(p), Ok(s)) => Err(("blocks-across-files:variables-differ".into(), format!("the include structure ends with {:?}, the pasted script with {:?}", s, p))),
+        (Ok(_), Err(e)) => Err(("blocks-across-files:run-failed".into(), format!("the pasted script runs, the include structure {}", e))),
+    }
+}
+
 /// What a script prints while it is being parsed (`!print`) is part of its behaviour too: an include
 /// structure prints what the pasted script prints - a file included twice prints twice. Observed on
 /// the real standard output of a child process (`dsmc libref file`), structure against pasted text.
@@ -624,6 +686,7 @@ pub fn worker(w: &mut Worker) {
     let tier = w.tier;
     scale(w);
     parse_time_output(w);
+    blocks_across_files(w);
     let rig = Rig::new();
     let dir: PathBuf = w.scratch.join("c14");
     let every = tier.pick(5usize, 1usize);
@@ -711,6 +774,16 @@ pub fn worker(w: &mut Worker) {
 }
 
 pub fn replay(case: &Value) -> Result<String, String> {
+    if case["kind"].as_str() == Some("blocks-across-files") {
+        let dir = scratch_root().join(format!("replay-c14-blocks-{}", std::process::id()));
+        let shape = case["shape"].as_str().unwrap_or("");
+        let style = if case["path_style"].as_str() == Some("absolute") { 1 } else { 0 };
+        let shapes = block_shapes();
+        let files = &shapes.iter().find(|(n, _)| *n == shape).ok_or("unknown shape")?.1;
+        let r = blocks_case(files, style, &dir);
+        let _ = std::fs::remove_dir_all(&dir);
+        return Ok(format!("{:?}", r));
+    }
     if case["kind"].as_str() == Some("parse-time-output") {
         let me = std::env::current_exe().map_err(|e| e.to_string())?;
         let dir = scratch_root().join(format!("replay-c14-print-{}", std::process::id()));
@@ -772,7 +845,7 @@ pub fn crash_sig(_case: &Value, kind: &str) -> String {
     kind.to_string()
 }
 
-pub const RULE: &str = "include structures: four files r.ds, d1/a.ds, d1/d2/b.ds, c.ds; every assignment of an include directive (none / one file / two files / the same file twice, listed in one directive, at the first, middle or last line) to each file such that a file only includes files later in the order (two orders: descending into and climbing out of the nested directories), unreachable files normalised away, x path style {./relative, plain relative, absolute}. Faults (on every n-th structure): each include edge pointing to a missing file; a malformed line at every (reachable file, line); a trigger_error at every (reachable file, line); two handled errors in different files (the later one is the last error: its line and its file); pairs of faults (a missing edge or a malformed line in an included file together with a malformed last line of the root file: the one that comes first in the pasted text must be reported). Oracle: parse_file(root) minus directive instructions equals parse_text of the recursively pasted text; every instruction carries the file it came from (compared as canonical paths) and its line in that file; running the file and the pasted text gives the same emit trace and variables; a missing file fails the parse with ErrorReadingFile naming that file; a malformed line fails with its kind, its own line and its own file; get_last_error_line/_source name the included file and line. Scale cases: a chain of 12/40 (thorough 150) files each including the next across two directories, a chain through files whose names differ only in letter case, one directive listing 12/100 (thorough 1000) files, an included file of 5000 (thorough 200000) lines: instruction order, file and line of every instruction. Parse-time output: 8 include shapes with !print lines (a file included once, twice on two lines, twice on one line, three times, a diamond, a nested file twice, prints only below, another file between) x relative / absolute paths, run in a child process against the pasted text run in a child process: same exit status, same standard output";
+pub const RULE: &str = "include structures: four files r.ds, d1/a.ds, d1/d2/b.ds, c.ds; every assignment of an include directive (none / one file / two files / the same file twice, listed in one directive, at the first, middle or last line) to each file such that a file only includes files later in the order (two orders: descending into and climbing out of the nested directories), unreachable files normalised away, x path style {./relative, plain relative, absolute}. Faults (on every n-th structure): each include edge pointing to a missing file; a malformed line at every (reachable file, line); a trigger_error at every (reachable file, line); two handled errors in different files (the later one is the last error: its line and its file); pairs of faults (a missing edge or a malformed line in an included file together with a malformed last line of the root file: the one that comes first in the pasted text must be reported). Oracle: parse_file(root) minus directive instructions equals parse_text of the recursively pasted text; every instruction carries the file it came from (compared as canonical paths) and its line in that file; running the file and the pasted text gives the same emit trace and variables; a missing file fails the parse with ErrorReadingFile naming that file; a malformed line fails with its kind, its own line and its own file; get_last_error_line/_source name the included file and line. Scale cases: a chain of 12/40 (thorough 150) files each including the next across two directories, a chain through files whose names differ only in letter case, one directive listing 12/100 (thorough 1000) files, an included file of 5000 (thorough 200000) lines: instruction order, file and line of every instruction. Parse-time output: 8 include shapes with !print lines (a file included once, twice on two lines, twice on one line, three times, a diamond, a nested file twice, prints only below, another file between) x relative / absolute paths, run in a child process against the pasted text run in a child process: same exit status, same standard output. Blocks across files: 11 shapes (if / while / for / fn / nested blocks opened in one file and closed in another, the directive last in its file or not, else in an included file) x relative / absolute paths: final variables of the include structure equal those of the pasted text";
 pub const ASSUMPTIONS: &[&str] = &["cyclic includes are outside the property (C07 probes them)", "the scratch directory is on a local file system without symlinks"];
 pub const EXHAUSTIVE: bool = true;
 pub const WALL_CAP_S: (u64, u64) = (55, 1500);
